@@ -29,6 +29,7 @@ from ._storage import (
     clear_treeflatten_memo,
     clear_treepath_memo,
     get_shape_memo,
+    get_treeflatten_memo,
     set_shape_memo,
     set_treeflatten_memo,
     set_treepath_memo,
@@ -121,11 +122,15 @@ class _MetaPyTree(type):
 
             is_flatten_leaftype = is_check_leaftype = is_leaftype
 
+        # This check may itself be running inside the flattening of an enclosing
+        # `PyTree[PyTree[...]]` check: only leave flatten-mode if we entered it here.
+        already_flattening = get_treeflatten_memo()
         set_treeflatten_memo()
         try:
             leaves, structure = jtu.tree_flatten(obj, is_leaf=is_flatten_leaftype)
         finally:
-            clear_treeflatten_memo()
+            if not already_flattening:
+                clear_treeflatten_memo()
         if cls.structure is not None:
             if cls.structure.isidentifier():
                 try:
@@ -183,15 +188,20 @@ class _MetaPyTree(type):
                     if structure != named_structure:
                         return False
 
+        # Only a structured `PyTree[..., "T"]` owns the `?`-leaf position. A structure-less
+        # `PyTree[...]` nested in its leaf type must leave it alone, so that e.g.
+        # `PyTree[PyTree[Float[Array, "?foo"]], "T"]` can see which leaf of `T` it is in.
         try:
             for leaf_index, leaf in enumerate(leaves):
                 if cls.structure is not None:
                     set_treepath_memo(leaf_index, cls.structure)
                 if not is_check_leaftype(leaf):
                     return False
-                clear_treepath_memo()
+                if cls.structure is not None:
+                    clear_treepath_memo()
         finally:
-            clear_treepath_memo()
+            if cls.structure is not None:
+                clear_treepath_memo()
         return True
 
     # Can't return a generic (e.g. _FakePyTree[item]) because generic aliases don't do
